@@ -466,10 +466,21 @@ func (b BrokenFeatures) Error() string {
 }
 
 func (b *BasicWorldBuilder) Finish(o *BuildOptions) (b6.World, error) {
+	// Areas are validated after everything else, once invalid paths have
+	// been removed, since an area is only valid if all of its paths are.
 	stages := []func(toIndex chan<- Feature, byID *FeaturesByID){
 		func(c chan<- Feature, features *FeaturesByID) {
 			for _, feature := range *features {
-				c <- feature
+				if feature.FeatureID().Type != b6.FeatureTypeArea {
+					c <- feature
+				}
+			}
+		},
+		func(c chan<- Feature, features *FeaturesByID) {
+			for _, feature := range *features {
+				if feature.FeatureID().Type == b6.FeatureTypeArea {
+					c <- feature
+				}
 			}
 		},
 	}
